@@ -40,11 +40,12 @@ def main():
         meta["ran"].append("go test -vet=off -count=1 ./...  (x2, with the change): %s" % suite)
         demo = os.path.join(d, "demo_test.go")
         shutil.copy(demo, os.path.join(scratch, "zz_seed_demo_test.go"))
-        rc, out = sh(["go", "test", "-vet=off", "-count=1", "-run", "Seed|Demo|seed|demo", "."], scratch)
+        race = ["-race"] if checks[0] in ("C14", "C15") else []
+        rc, out = sh(["go", "test"] + race + ["-vet=off", "-count=1", "-run", "Seed|Demo|seed|demo", "."], scratch)
         meta["demo_fails_with_change"] = rc != 0
         meta["demo_output_with_change"] = out[-1200:]
         sh(["patch", "-p1", "-s", "-R", "-i", os.path.join(d, "patch.diff")], scratch)
-        rc, out = sh(["go", "test", "-vet=off", "-count=1", "-run", "Seed|Demo|seed|demo", "."], scratch)
+        rc, out = sh(["go", "test"] + race + ["-vet=off", "-count=1", "-run", "Seed|Demo|seed|demo", "."], scratch)
         meta["demo_passes_without_change"] = rc == 0
         meta["ran"].append("go test -run 'Seed|Demo' . with the change: exit != 0 -> %s; without: exit 0 -> %s" % (meta["demo_fails_with_change"], meta["demo_passes_without_change"]))
         os.remove(os.path.join(scratch, "zz_seed_demo_test.go"))
